@@ -32,10 +32,14 @@ PY
 ok=0; lost=0
 list | while IFS='|' read -r name patch ids; do
   case "$name" in "$PFX"*) ;; *) continue ;; esac
-  caught=""
-  for id in $ids; do
-    out=$(scripts/selftest.sh "$patch" quick "$id" 2>&1 | grep "MUTANT")
-    if echo "$out" | grep -q CAUGHT; then caught="$id"; break; fi
+  caught=""; why=""
+  for try in 1 2; do
+    for id in $ids; do
+      out=$(scripts/selftest.sh "$patch" quick "$id" </dev/null 2>&1 | tail -3)
+      if echo "$out" | grep -q "MUTANT.*CAUGHT"; then caught="$id"; break; fi
+      why="$why | $(echo "$out" | tail -1 | cut -c1-200)"
+    done
+    [ -n "$caught" ] && break
   done
-  if [ -n "$caught" ]; then echo "OK $name $caught"; else echo "LOST $name tried: $ids"; fi
+  if [ -n "$caught" ]; then echo "OK $name $caught"; else echo "LOST $name tried: $ids (twice)$why"; fi
 done
